@@ -44,6 +44,12 @@ def observe(ctx: fw.Ctx, hists):
         ctx.case({"doc": h.text, "ops": [list(r.op) for r in h.recs]}, bool(ok_ops))
         for r in h.recs:
             check_op(ctx, h, r)
+        if any(r.op[1].startswith("@") and r.result == "ok" for r in h.recs):
+            # a scoped edit must leave every other let binding / inherit and the body as they were:
+            # same reference semantics as C09
+            from . import c09
+
+            c09.observe(ctx, [h], count_case=False)
 
 
 def check_op(ctx, h, r):
